@@ -11,13 +11,13 @@ import (
 )
 
 func init() {
-	register(&Rule{ID: "C20.R1", Min: 10,
+	register(&Rule{ID: "C20.R1", Min: 6,
 		Text: "exhaustive dispatch: the declared Rounder constants, the keys of `roundings` and the cases of ShouldAddOne are the same set; each case calls a distinct decision function; the default case calls the RoundHalfUp function",
 		Run:  ruleRounderDispatch})
-	register(&Rule{ID: "C20.R2", Min: 8,
+	register(&Rule{ID: "C20.R2", Min: 4,
 		Text: "decision tables: each rounding decision function, evaluated over the finite domain neg∈{T,F} × half∈{<0,=0,>0} (its parameters are only ever compared), has exactly the truth table of its mode: down F; up T; half_up half≥0; half_down half>0; half_even half>0 or (half=0 and odd); floor neg; ceiling ¬neg; 05up depends on the result digit only",
 		Run:  ruleDecisionTables})
-	register(&Rule{ID: "C09.R1", Min: 4,
+	register(&Rule{ID: "C09.R1", Min: 7,
 		Text: "every site that raises Inexact because digits were dropped lies on a path through a ShouldAddOne decision (directly or via Rounder.Round); exceptions: overflow to infinity, and the transcendental functions whose result is inexact by definition",
 		Run:  ruleInexactThroughDecision})
 }
